@@ -8,6 +8,7 @@ package main
 import (
 	"fmt"
 	"hash/fnv"
+	"os"
 	"math"
 	"sort"
 	"strings"
@@ -134,6 +135,19 @@ func (p *Path) query(extra *Term) (string, Model) {
 			res = "unknown"
 			m = nil
 			w.notes["get-model: "+err.Error()]++
+		}
+	}
+	if debugModel && m != nil {
+		for i, c := range p.pc {
+			if v, ok := c.Eval(m); !ok || v != 1 {
+				fmt.Fprintf(os.Stderr, "SOLVER MODEL violates pc[%d]: %s ok=%v model=%v\n", i, c.SMT(), ok, m)
+				break
+			}
+		}
+		if extra != nil {
+			if v, ok := extra.Eval(m); !ok || v != 1 {
+				fmt.Fprintf(os.Stderr, "SOLVER MODEL violates extra: %s ok=%v\n", extra.SMT(), ok)
+			}
 		}
 	}
 	w.solver.Pop(1)
@@ -511,15 +525,47 @@ func (p *Path) violation(kind, msg string) {
 }
 
 // concretize forks over the values of an integer term (small domains only).
+var debugModel = os.Getenv("GOSYM_DEBUG") != ""
+
+func (p *Path) checkModel(where string) {
+	if !debugModel || p.model == nil {
+		return
+	}
+	for i, c := range p.pc {
+		if v, ok := c.Eval(p.model); !ok || v != 1 {
+			var sb strings.Builder
+			for j, x := range p.pc {
+				fmt.Fprintf(&sb, "\n   pc[%d] %s", j, x.SMT())
+			}
+			fmt.Fprintf(&sb, "\n   model %v\n   log:", p.model)
+			for _, e := range p.log {
+				fmt.Fprintf(&sb, " %c%d/f%v/a%v", e.Kind, e.Val, e.Forced, e.Alt)
+			}
+			fmt.Fprintf(os.Stderr, "MODEL BUG at %s pc[%d]: pos=%d len(log)=%d %s\n", where, i, p.pos, len(p.log), sb.String())
+			panic(fmt.Sprintf("model violates pc[%d] at %s: %s (ok=%v)", i, where, c.SMT(), ok))
+		}
+	}
+}
+
 func (p *Path) concretize(t *Term, what string) int64 {
 	if t.IsConst() {
 		return t.SVal()
 	}
 	for n := 0; n < 64; n++ {
-		p.ensureModel()
-		v, ok := t.Eval(p.model)
-		if !ok {
-			panic("concretize: cannot evaluate")
+		// the candidate value comes from the model: it is logged so that a replay builds the same terms
+		var v uint64
+		if ev := p.nextEvent('v'); ev != nil {
+			v = uint64(ev.Val)
+		} else {
+			p.ensureModel()
+			p.checkModel("concretize")
+			var ok bool
+			v, ok = t.Eval(p.model)
+			if !ok {
+				panic("concretize: cannot evaluate")
+			}
+			p.log = append(p.log, Event{Kind: 'v', Val: int(v)})
+			p.pos = len(p.log)
 		}
 		c := p.tt().BV(t.w, v)
 		if p.Branch(p.tt().Eq(t, c)) {
